@@ -100,7 +100,7 @@ def _output_match(F):
     fn = F.fn(LIB + "run_file_with_reader")
     body = fn_body(fn)
     for m in nodes(body, "Match"):
-        if "Option<std::path::PathBuf>" in m.get("scrut_ty", ""):
+        if "Option<std::path::PathBuf>" in m.get("scrut_ty", "").replace("core::option::", ""):
             return fn, m
     return fn, None
 
